@@ -598,6 +598,25 @@ def rule_XA(run: Run) -> RuleResult:
             else:
                 res.add(f"{cls.qualname}:explain:path explains the always-keyed children", True, f, ln,
                         f"every returning explain path explains {sorted(common)}", nec)
+        # the part whose value selects the branch (evaluated on every keys() and validate() path) is consulted by every returning
+        # explain() path as well — possibly in vain (its failure is what the fallback branches of explain are for): an explain() that
+        # decides from the options dictionary alone (``if not options``) that the selector cannot be determined reports the keys of
+        # another branch than the one validate() goes on to check (C11)
+        def _selectors(paths):
+            sel = None
+            for p in paths:
+                s_ = {e.target.path for e in p.events if e.kind == "op" and e.op == "evaluate" and isinstance(e.target, Child) and "[*]" not in e.target.path and not e.via}
+                sel = s_ if sel is None else (sel & s_)
+            return sel or set()
+        allk = [p for p in run.paths(cls, "keys") if p.status in ("ret", "raise")]
+        allv = [p for p in run.paths(cls, "validate") if p.status in ("ret", "raise")]
+        sel = _selectors(allk) & _selectors(allv) if allk and allv else set()
+        for c_ in sorted(sel):
+            skipping = [p for p in xpaths if not any(e.kind == "op" and e.op == "evaluate" and isinstance(e.target, Child) and e.target.path == c_ for e in p.events)
+                        and not any(e.kind == "selfop" for e in p.events)]
+            res.add(f"{cls.qualname}:explain:consults the selecting part '{c_}' like keys and validate", not skipping, f, ln,
+                    f"every returning explain path evaluates '{c_}' first" if not skipping else
+                    f"a returning explain path never evaluates '{c_}' (conditions {[c2[0][:40] for c2 in skipping[0].conds][:4]}): it reports a branch chosen without the selector", nec)
         if not want:
             res.add(f"{cls.qualname}:explain:no-children", True, f, ln, "no children", nec, trivial=True)
     return res
